@@ -221,14 +221,162 @@ def conj_cases(tier):
     return out
 
 
+
+# ----------------------------------------------------------------------------- goal written around the evaluation
+#
+# An indirect goal is read at the moment the need is evaluated.  Here the goal share is rewritten inside the ticks in which
+# the need is evaluated: before the evaluation (a framer / harness action scheduled earlier) AND after it (scheduled
+# later), with stamping writes (Share.update, `put`) and non-stamping writes (share[field] = v, Share.change), and the
+# condition is compared again on the later ticks.
+
+G0 = 5.0          # initial goal (init: never stamped)
+SVAL = 1.0        # the state
+
+
+def goals_at_eval(writes, horizon):
+    """writes[k] = (front value or None, back value or None); -> goal value seen by the evaluation of tick k"""
+    g, out = G0, []
+    for k in range(horizon):
+        f, b = writes[k] if k < len(writes) else (None, None)
+        if f is not None:
+            g = f
+        out.append(g)
+        if b is not None:
+            g = b
+    return out
+
+
+def seq_conditions(tier):
+    out = [("==", 0.25, False), ("!=", 0.25, False)]
+    if tier == "thorough":
+        out += [("==", None, False), ("!=", None, False), ("==", 0.25, True), ("<=", None, False), (">", 0.25, False)]
+    return out
+
+
+def cond_text(op, tol, neg):
+    c = ".s %s .g" % op
+    if tol is not None:
+        c += " +- %s" % lit(tol)
+    return ("not " + c) if neg else c
+
+
+def env_cases(tier):
+    """harness actions at the start (before every framer) and end (after every framer) of ticks 1 and 2 write .g"""
+    out = []
+    kinds = ["upd", "raw"] + (["chg"] if tier == "thorough" else [])
+    ops = [None] + [(kd, v) for kd in kinds for v in (1.0, 2.0)]
+    horizon = 4
+    for op, tol, neg in seq_conditions(tier):
+        for f1 in ops:
+            for b1 in ops:
+                for f2 in ops:
+                    for b2 in ops:
+                        env = [(None, None), (f1, b1), (f2, b2), (None, None)]
+                        writes = [tuple(None if o is None else o[1] for o in pair) for pair in env]
+                        cond = cond_text(op, tol, neg)
+                        label = "%s | tick1 %s / %s, tick2 %s / %s" % (cond, show_op(f1), show_op(b1), show_op(f2), show_op(b2))
+                        out.append(dict(family="seq-env", cond=cond, label=label,
+                                        inits=["init .s with value %s" % lit(SVAL), "init .g with value %s" % lit(G0)], pre=[],
+                                        horizon=horizon, env=env,
+                                        clauses=[("seq", SVAL, op, goals_at_eval(writes, horizon), tol, neg)],
+                                        group="seq-env|%s|%s" % (op, "+".join(sorted(set(o[0] for o in (f1, b1, f2, b2) if o))) or "none")))
+    return out
+
+
+def show_op(o):
+    if o is None:
+        return "-"
+    return {"upd": "update", "raw": "share[field]=", "chg": "change"}[o[0]] + " %s" % o[1]
+
+
+def chain(name, writes):
+    """framer that enters frame <name>k at tick k (k >= 1) and puts writes[k] into .g on entering it"""
+    last = max([k for k, v in writes.items() if v is not None] + [0])
+    src = ["framer %s be active first %s0" % (name, name), "frame %s0" % name]
+    for k in range(1, last + 1):
+        src += ["  go next", "frame %s%d" % (name, k)]
+        if writes.get(k) is not None:
+            src.append("  put %s into .g" % lit(writes[k]))
+    return src
+
+
+def script_cases(tier):
+    """the same with FloScript only: framer `pre` (declared before f) and framer `post` (declared after f) put into .g"""
+    out = []
+    vals = [None, 1.0, 2.0]
+    horizon = 4
+    for op, tol, neg in seq_conditions(tier):
+        for f1 in vals:
+            for b1 in vals:
+                for f2 in vals:
+                    for b2 in vals:
+                        writes = [(None, None), (f1, b1), (f2, b2), (None, None)]
+                        cond = cond_text(op, tol, neg)
+                        label = "%s | pre puts %s,%s post puts %s,%s at ticks 1,2" % (cond, f1, f2, b1, b2)
+                        out.append(dict(family="seq-script", cond=cond, label=label,
+                                        inits=["init .s with value %s" % lit(SVAL), "init .g with value %s" % lit(G0)], pre=[],
+                                        before=chain("pre", {1: f1, 2: f2}), after=chain("post", {1: b1, 2: b2}),
+                                        horizon=horizon,
+                                        clauses=[("seq", SVAL, op, goals_at_eval(writes, horizon), tol, neg)],
+                                        group="seq-script|%s" % op))
+    return out
+
+
+# ----------------------------------------------------------------------------- conditions inside cloned framers, `let`
+#
+# The same written condition must evaluate the same way in a plain framer, in a named clone (`aux mo as cl`) and in an
+# insular clone (`aux mo as mine`) of a moot framer, as the guard of a transition (`go b if ..`) and as an entry
+# condition of the target frame (`let me if ..`, every `and` clause is its own act).
+
+LET_POOL = [(".s == 1", True), ("not .s == 1", False), (".s != 1", False), ("not .s != 1", True), ("not .s > 1", True),
+            ("not .s <= 1", False)]
+
+
+def clone_cases(tier):
+    out = []
+    conds = []
+    for neg in (False, True):
+        for op in OPS:
+            for goal in (1, 0, 2):
+                c = ".s %s %s" % (op, lit(goal))
+                conds.append((("not " + c) if neg else c, [("cmp", 1, op, goal, None, neg)]))
+    for neg in (False, True):
+        c = ".s == .g +- 0.5"
+        conds.append((("not " + c) if neg else c, [("cmp", 1, "==", 1.5, 0.5, neg)]))
+        conds.append((("not " if neg else "") + ".r", [("bool", True, neg)]))
+    for (c1, t1) in LET_POOL:
+        for (c2, t2) in LET_POOL:
+            conds.append((c1 + " and " + c2, [("const", t1), ("const", t2)]))
+    inits = ["init .s with value 1", "init .g with value 1.5", "init .r with value true"]
+    for place in ("plain", "named-clone", "insular-clone"):
+        for form in ("go", "let"):
+            for cond, clauses in conds:
+                body = ["frame a", "  go b if " + cond, "frame b"] if form == "go" else ["frame a", "  go b", "frame b", "  let me if " + cond]
+                if place == "plain":
+                    src = ["house h"] + inits + ["framer f be active first a"] + body
+                    watch = "f"
+                else:
+                    how = "aux mo as cl" if place == "named-clone" else "aux mo as mine"
+                    src = ["house h"] + inits + ["framer f be active first m", "frame m", "  " + how, "framer mo be moot first a"] + body
+                    watch = "f_cl" if place == "named-clone" else "f_mo1"
+                src += ["framer twin be active first x", "frame x", ""]
+                out.append(dict(family="clone-%s-%s" % (form, place), cond=cond, label="%s if %s in %s" % (form, cond, place),
+                                inits=inits, pre=[], horizon=3, text="\n".join(src), watch=watch, clauses=clauses,
+                                group="clone|%s|%s|%s" % (form, place, "not" if "not " in cond else "plain")))
+    return out
+
+
 def all_cases(tier):
-    return cmp_cases(tier) + field_cases(tier) + bool_cases(tier) + clock_cases(tier) + conj_cases(tier)
+    return (cmp_cases(tier) + field_cases(tier) + bool_cases(tier) + clock_cases(tier) + conj_cases(tier)
+            + clone_cases(tier) + script_cases(tier) + env_cases(tier))
 
 
 def program(case):
-    src = ["house h"] + case["inits"] + ["framer f be active first a", "frame a"]
+    if "text" in case:
+        return case["text"]
+    src = ["house h"] + case["inits"] + case.get("before", []) + ["framer f be active first a", "frame a"]
     src += ["  " + l for l in case["pre"]]
-    src += ["  go b if " + case["cond"], "frame b", "framer twin be active first x", "frame x", ""]
+    src += ["  go b if " + case["cond"], "frame b"] + case.get("after", []) + ["framer twin be active first x", "frame x", ""]
     return "\n".join(src)
 
 
@@ -242,6 +390,11 @@ def clause_truth(cl, clocks, k):
     elif cl[0] == "bool":
         _, v, neg = cl
         r = bool(v)
+    elif cl[0] == "const":
+        return cl[1]
+    elif cl[0] == "seq":
+        _, state, op, goals, tol, neg = cl
+        r = oracle(state, op, goals[k], tol)
     else:
         _, clock, op, goal, tol, neg = cl
         state = clocks[k][0] if clock == "elapsed" else clocks[k][1]
@@ -282,7 +435,8 @@ def check_built(real, p, case):
     if res.kind == "Watchdog":
         res = real.build_text(text, limit=120.0)
     p.evaluations += 1
-    p.nontrivial(case["family"] + "|" + case["cond"] + "|" + ";".join(case["inits"] + case["pre"]))
+    label = case.get("label", case["cond"])
+    p.nontrivial(case["family"] + "|" + label + "|" + ";".join(case["inits"] + case["pre"]))
     rep = dict(script=text, tick=TICK, horizon=case["horizon"], condition=case["cond"],
                how="build with ioflo.base.building.Builder, run with Skedder(real=False, period=tick); observe framer f's active frame per tick")
     if not res.ok:
@@ -294,7 +448,29 @@ def check_built(real, p, case):
                     "condition `%s` could not be built: %s %r" % (case["cond"], exname, res.exc), dict(rep, exc=repr(res.exc)))
         p.outcome("%s: build failed" % case["family"].split("-")[0])
         return
-    rr = real.run(res.houses, tick=TICK, horizon=case["horizon"], limit=60.0)
+    front = back = None
+    env = case.get("env")
+    if env:
+        def write(house, o):
+            if o is not None:
+                sh = house.store.fetchShare(".g")
+                if o[0] == "upd":
+                    sh.update(value=o[1])
+                elif o[0] == "raw":
+                    sh["value"] = o[1]
+                else:
+                    sh.change(value=o[1])
+
+        def front(house, k):
+            if k < len(env):
+                write(house, env[k][0])
+
+        def back(house, k):
+            if k < len(env):
+                write(house, env[k][1])
+        rep["harness_writes"] = "per tick (start of tick before every framer, end of tick after every framer): %r; upd = " \
+                                "Share.update(value=v), raw = share['value'] = v, chg = Share.change(value=v) on .g" % (env,)
+    rr = real.run(res.houses, tick=TICK, horizon=case["horizon"], limit=60.0, env_front=front, env_back=back)
     if rr.outcome != "returned" or len(rr.ticks) != case["horizon"]:
         p.violation("%s|run-%s" % (case["group"], rr.outcome), case["cond"],
                     "running the transition `go b if %s` ended with %s %r" % (case["cond"], rr.outcome, rr.exc),
@@ -305,7 +481,8 @@ def check_built(real, p, case):
     for t in rr.ticks:
         fm = dict((s[0], s) for s in t["framers"])
         clocks.append((fm["twin"][6], fm["twin"][7]))
-        actives.append(fm["f"][4])
+        w = fm.get(case.get("watch", "f"))
+        actives.append(w[4] if w is not None else "<no framer %s>" % case.get("watch"))
     took = None
     for k, a in enumerate(actives):
         if a == "b":
@@ -320,9 +497,9 @@ def check_built(real, p, case):
         return
     if took != want:
         kind = "taken-but-false" if (took is not None and (want is None or took < want)) else "not-taken-but-true"
-        p.violation("%s|%s" % (case["group"], kind), case["cond"],
+        p.violation("%s|%s" % (case["group"], kind), label,
                     "`go b if %s` (%s): transition %s, the written condition %s" % (
-                        case["cond"], "; ".join(case["inits"] + case["pre"]),
+                        label, "; ".join(case["inits"] + case["pre"]),
                         "not taken" if took is None else "taken at tick %d" % took,
                         "never holds within the horizon" if want is None else "first holds at tick %d" % want),
                     dict(rep, actives=actives, twin_clocks=clocks, expected_tick=want, observed_tick=took))
